@@ -21,7 +21,23 @@ def parse_edges(out):
     return vers, edges
 
 
-def plan(vers, edges, max_len=45, max_scripts=None):
+def projection(core):
+    """Canonical projection of a model state (Prunner!CoreState as JSON) - must produce the same string as
+    world.projection() in harness/driver/world.go for the corresponding observed state."""
+    jobs, running = core[2], core[5]
+    out = []
+    for i, j in enumerate(jobs):
+        le = j["lastErr"]
+        if le == "exit":
+            le = "other"
+        s = "%d%d%d%d:%s:" % (j["present"], j["started"], j["completed"], j["canceled"], le)
+        s += "".join(t["status"] + "," for t in j["rep"]) + ":"
+        s += "".join("%d," % t for t in sorted(running[i]))
+        out.append(s)
+    return ";".join(out)
+
+
+def plan(vers, edges, max_len=45, max_scripts=None, expectations=False):
     ids = {}
 
     def nid(s):
@@ -33,8 +49,14 @@ def plan(vers, edges, max_len=45, max_scripts=None):
     E = []
     init_cfg = {}
     seen = set()
+    quiet = {}
+    proj = {}
+    K = []
     for e in edges:
         u, v = nid(json.dumps(e["from"], sort_keys=True)), nid(json.dumps(e["to"], sort_keys=True))
+        if expectations and v not in proj:
+            proj[v] = projection(e["to"])
+            quiet[v] = bool(e.get("toQuiet"))
         key = (u, v, json.dumps(e["step"], sort_keys=True) if e["client"] else "internal")
         if key in seen:
             continue
@@ -85,8 +107,32 @@ def plan(vers, edges, max_len=45, max_scripts=None):
             cur = E[nxt[0]][1]
         for ei in walk:
             uncovered.discard(ei)
-        steps = [E[ei][2] for ei in walk if E[ei][2] is not None]
-        scripts.append({"cfg": init_cfg[root], "steps": steps, "edges": len(walk)})
+        steps = []
+        if expectations and not K:
+            K.extend(None if e[2] is None else json.dumps(e[2], sort_keys=True) for e in E)
+        for ei in walk:
+            if E[ei][2] is None:
+                continue
+            st = dict(E[ei][2])
+            if expectations:
+                st["lab"] = K[ei]
+            steps.append(st)
+        scripts.append({"cfg": init_cfg[root], "steps": steps, "edges": len(walk), "root": root})
         if max_scripts and len(scripts) >= max_scripts:
             break
-    return scripts, {"nodes": len(ids), "edges": len(E), "reachable_edges": len(order), "uncovered": len(uncovered)}
+    stats = {"nodes": len(ids), "edges": len(E), "reachable_edges": len(order), "uncovered": len(uncovered)}
+    if expectations:
+        # the quotient graph in the form lib/conform.py walks: per node its projection, whether it is quiescent, its
+        # goroutine (internal) successors and its successors per client operation
+        g = {"proj": proj, "quiet": {n for n in quiet if quiet[n]}, "internal": collections.defaultdict(list), "client": collections.defaultdict(dict)}
+        for r in init_cfg:
+            g["quiet"].add(r)
+            g["proj"].setdefault(r, "")
+        for i, (u, v, s) in enumerate(E):
+            if s is None:
+                g["internal"][u].append(v)
+            else:
+                g["client"][u].setdefault(K[i], []).append(v)
+        g["internal"], g["client"] = dict(g["internal"]), dict(g["client"])
+        stats["graph"] = g
+    return scripts, stats
